@@ -22,6 +22,11 @@ def members():
     out += [("Shekel4", (k,)) for k in (1, 2, 3)]
     out += [("Rastrigin", (n,)) for n in range(1, 9)] + [("XSquared", (n,)) for n in range(1, 9)]
     out += [("StronginC3", ())]
+    # the same constructor arguments spelled as numpy integers / 0-d arrays (an element of np.arange, np.squeeze of a table)
+    for n in (2, 3, 5):
+        out += [("Rastrigin", (np.int64(n),)), ("Rastrigin", (np.array(n),)), ("XSquared", (np.int64(n),)), ("XSquared", (np.array(n),))]
+    out += [("Hill", (np.int64(7),)), ("Shekel", (np.int32(7),)), ("Grishagin", (np.int64(7),)), ("GKLS", (np.int64(3), np.int64(7))),
+            ("Shekel4", (np.int64(2),))]
     return out
 
 
@@ -44,6 +49,8 @@ def metadata_chunk(items):
             out.append([f"{tag}: constructor raised {type(e).__name__}: {e}"])
             continue
         n = p.numberOfFloatVariables
+        if isinstance(n, np.ndarray) and n.ndim == 0 and np.issubdtype(n.dtype, np.integer):
+            n = int(n)      # the dimension as the caller spelled it (a 0-d integer array)
         lens = dict(names=len(p.floatVariableNames), lower=len(p.lowerBoundOfFloatVariables),
                     upper=len(p.upperBoundOfFloatVariables))
         if not isinstance(n, (int, np.integer)) or n < 1 or any(v != n for v in lens.values()):
@@ -71,6 +78,16 @@ def metadata_chunk(items):
                 elif len(lo) == n and (np.any(pt < lo) or np.any(pt > up)):
                     msgs.append(f"{tag}: known optimum {pt.tolist()} lies outside the box {lo.tolist()}..{up.tolist()}")
                 float(ko[0].functionValues[0].value)
+                # the declared optimum belongs to the caller: written over in place it must not change what the next
+                # instance of the same member declares
+                arr = ko[0].point.floatVariables
+                if isinstance(arr, np.ndarray) and arr.flags.writeable and len(pt) == n:
+                    arr[...] = arr * 0.5 + 0.123
+                    p2 = construct(fam, args)
+                    pt2 = np.array([float(v) for v in p2.knownOptimum[0].point.floatVariables])
+                    if not np.array_equal(pt2, pt):
+                        msgs.append(f"{tag}: after the caller overwrote the known-optimum array it had been given, a new "
+                                    f"instance declares {pt2.tolist()} instead of {pt.tolist()}")
         except Exception as e:
             msgs.append(f"{tag}: known optimum malformed: {type(e).__name__}: {e}")
         out.append(msgs)
